@@ -217,6 +217,8 @@ def run_shard(args):
     part = [p for p in mod.PARTS if p.name == part_name][0]
     rec = Recorder(prop, part, tier, shard)
     t0 = time.time()
+    import warnings
+    warnings.filterwarnings('ignore')
     try:
         if part.kind == 'sweep':
             for i, case in enumerate(part.sweep(tier)):
